@@ -292,6 +292,25 @@ def H():
     return "I[1].Ch.icc(1) still answers %r after `del I.Ch.icc`" % v
 
 
+def W():
+    """allow_none of a cells / child space is not carried into ItemSpaces"""
+    m = _reset()
+    A_ = m.new_space("A", formula="lambda p: None")
+    A_.new_cells("c", formula="def c(x):\n    return None if x == 1 else x")
+    A_.c.allow_none = True
+    Ch = A_.new_space("Ch")
+    Ch.allow_none = True
+    Ch.new_cells("d", formula="def d(x):\n    return None")
+    out = []
+    for what, fn in (("A[1].c(1)", lambda: A_[1].c(1)), ("A[1].Ch.d(1)", lambda: A_[1].Ch.d(1))):
+        try:
+            if fn() is not None:
+                out.append("%s is not None" % what)
+        except Exception as e:     # noqa
+            out.append("%s raised %s although the base returns None" % (what, type(mx.get_error()).__name__))
+    return "; ".join(out) or None
+
+
 # ------------------------------------------------------------------ C15
 def M():
     """export: comprehension following a nested class scope"""
@@ -409,7 +428,7 @@ def R():
     return None
 
 
-ALL = [A, F, G, U, I, J, K, L, T, B, D, E, a, b, c, H, M, N, O, P, Q, R]
+ALL = [A, F, G, U, I, J, K, L, T, B, D, E, a, b, c, H, W, M, N, O, P, Q, R]
 
 
 if __name__ == "__main__":
